@@ -140,8 +140,8 @@ Fixpoint alt_goals (fuel : nat) (b : term) : list term :=
            end
   end.
 
-(** compile t (already walked under the asserting env, [t_top] being the term
-    resolved at top level only, which is what Go stores as [raw] of a rule).
+(** compile t (already walked under the asserting env); [t_top] is the term to
+    store as [raw] (what clause/2 and retract/1 see).
     Result: clauses without identities (cid filled by the caller), or the
     culprit of type_error(callable, _). *)
 Definition compile (t t_top : term) : (list clause) + term :=
@@ -163,7 +163,7 @@ Definition compile (t t_top : term) : (list clause) + term :=
          end) alts
   | _ =>
       match compile_clause t None with
-      | Some (n, ar, vs, code) => inl [mkClause n ar t vs code 0]
+      | Some (n, ar, vs, code) => inl [mkClause n ar t_top vs code 0]
       | None => inr t
       end
   end.
